@@ -138,6 +138,12 @@ H("parse_frame", src="h_parse_frame.c", props=["C05", "C09", "C17", "C03", "C02"
   must_reach=["end", "absent-fail", "absent-ok", "foreign", "accept", "reject", "reset"], shards=8, mem_est_gb=6,
   bounded="records of at most 2 interfaces in the global list; observation lists of at most 2 (thorough 4) nodes in the dispatcher harness, with the cap LLTD_SEE_LIST_MAX compiled to the same value; MTU fixed to 576")
 
+H("state_for_iface", src="h_state.c", props=["C09", "C17", "C18", "C19"], enforce=["lltd_state_for_iface"], unwind=8,
+  unwindset={"v_build_state.0": 50, "lltd_state_for_iface.0": 4}, defines_quick=["V_LIST_MAX=2"], defines_thorough=["V_LIST_MAX=4"],
+  must_reach=["end", "present", "created", "failed"], bounded="at most 2 interface records in the global list")
+H("state_clear", src="h_state.c", props=["C09", "C19"], enforce=["lltd_state_clear_seen_probes", "lltd_state_clear_icon_cache"], unwind=8,
+  unwindset={"v_build_state.0": 50, "lltd_state_clear_seen_probes.0": 8}, defines_quick=["V_LIST_MAX=3"], defines_thorough=["V_LIST_MAX=5"],
+  bounded="observation lists of at most 3 (thorough 5) nodes")
 # ---------------------------------------------------------------- Hello: writers and assembly (C02 / C03 / C04)
 H("tlv_writers", src="h_tlv.c", props=["C04", "C02", "C01", "C17"], unwind=8,
   enforce=["setHostIdTLV", "setCharacteristicsTLV", "setPhysicalMediumTLV", "setWirelessTLV", "setBSSIDTLV", "setSSIDTLV", "setIPv4TLV",
@@ -145,6 +151,14 @@ H("tlv_writers", src="h_tlv.c", props=["C04", "C02", "C01", "C17"], unwind=8,
            "setSupportInfoTLV", "setFriendlyNameTLV", "setHardwareIdTLV", "setQosCharacteristicsTLV"],
   unwindset={"h_tlv_writers.0": 162, "h_tlv_writers.1": 162, "v_copy_name.0": 42, "lltd_port_get_hw_id.0": 66, "lltd_port_get_ipv6_address.0": 18, "lltd_port_get_bssid.0": 8}, shards=8, must_reach=["end", "hostname", "rssi"])
 H("wire_headers", src="h_tlv.c", props=["C02", "C03", "C01", "C11"], unwind=8, unwindset={"h_wire_headers.0": 66, "h_wire_headers.1": 66, "h_wire_headers.2": 66, "h_wire_headers.3": 66})
+import copy as _copy
+_twbe = _copy.deepcopy(HARNESS["tlv_writers"]); _twbe.update(name="tlv_writers_be", cc_flags=["--big-endian"], cbmc_flags=["--big-endian"], no_native=True,
+                                                              thorough_only=True, bounded="big-endian machine model")
+HARNESS["tlv_writers_be"] = _twbe
+H("wire_headers_be", src="h_tlv.c", fn="h_wire_headers", props=["C02", "C03", "C04", "C01"], unwind=8,
+  unwindset={"h_wire_headers.0": 66, "h_wire_headers.1": 66, "h_wire_headers.2": 66, "h_wire_headers.3": 66},
+  cc_flags=["--big-endian"], cbmc_flags=["--big-endian"], no_native=True,
+  bounded="big-endian machine model (the runtime endianness probe of lltdEndian.h takes its other branch)")
 _HOSTLENS = {"quick": [7, 40], "thorough": [0, 1, 7, 16, 31, 32, 33, 40]}
 def _hello(w, hl, sl, tiers):
     n = "answer_hello_w%d_h%d_s%d" % (w, hl, sl)
@@ -177,29 +191,34 @@ H("esp32_frame", src="h_esp32.c", props=["C01"], unwind=8,
   bounded="told lengths 0..40 (the header guard is at 32); the buffer object has exactly the told length")
 
 _HANDLERS = ["send_probe", "parse_emit", "parse_emit_strict", "parse_probe", "parse_query", "parse_query_mtu60", "parse_query_mtu72",
-             "parse_query_mtu80", "parse_query_mtu93", "send_ltr", "parse_qlt"]
+             "parse_query_mtu80", "parse_query_mtu93", "parse_query_symmtu", "send_ltr", "parse_qlt"]
 _FRAME_PATH = ["parse_frame"] + _HELLO_ALL + _HANDLERS
 _H1 = [_HELLO_QUICK[0]]          # one Hello instance where the Hello-specific clauses are not the point (quick tier)
+H("parse_query_symmtu", src="h_probe_query.c", fn="h_parse_query", props=_PQ, enforce=["parseQuery"], unwind=8,
+  unwindset={"parseQuery.0": 8, "lltd_state_clear_seen_probes.0": 8, "parseQuery.1": 8, "v_build_state.0": 50},
+  defines=["V_MTU_FIXED=160", "V_SYM_SMALL_MTU=1", "V_TXOVER=160"], defines_quick=_LD["quick"], defines_thorough=_LD["thorough"],
+  must_reach=["end", "answered", "overflow", "tx"], shards=4,
+  bounded="symbolic small MTU 54..135 (every residue of (MTU-34) mod 20, capacity 1..5) with an over-sized transmit object whose writes are checked against the requested size; outside the property's MTU range, code uniform in MTU")
 PROPS = {
     "C01": {"harnesses": _FRAME_PATH + ["tlv_writers", "wire_headers", "derive", "derive_oob", "esp32_frame", "map_step", "sess_step", "enum_step", "tick"],
             "harnesses_quick": ["parse_frame"] + _H1 + _HANDLERS + ["tlv_writers", "wire_headers", "derive_oob", "esp32_frame", "map_step", "sess_step", "enum_step"]},
-    "C02": {"harnesses": _FRAME_PATH + ["tlv_writers", "wire_headers"],
-            "harnesses_quick": ["parse_frame"] + _HELLO_QUICK[:2] + _HANDLERS + ["tlv_writers", "wire_headers"]},
-    "C09": {"harnesses": ["parse_frame"],
+    "C02": {"harnesses": _FRAME_PATH + ["tlv_writers", "wire_headers", "wire_headers_be"],
+            "harnesses_quick": ["parse_frame"] + _HELLO_QUICK[:2] + _HANDLERS + ["tlv_writers", "wire_headers", "wire_headers_be"]},
+    "C09": {"harnesses": ["parse_frame", "state_for_iface", "state_clear"],
             "explanation": "Reset arm and record creation are proved here; the determinism of every handler's outputs in (record, frame, configuration) is what the handler contracts proved under C03/C06/C07/C08 state"},
-    "C17": {"harnesses": ["parse_frame", "send_probe", "parse_probe", "parse_query", "parse_qlt", "tlv_writers"] + _H1,
-            "harnesses_quick": ["parse_frame", "send_probe", "parse_probe", "parse_query", "parse_qlt"],
+    "C17": {"harnesses": ["parse_frame", "send_probe", "parse_probe", "parse_query", "parse_qlt", "tlv_writers", "state_for_iface"] + _H1,
+            "harnesses_quick": ["parse_frame", "send_probe", "parse_probe", "parse_query", "parse_qlt", "state_for_iface"],
             "extra_steps": [closure.core_globals]},
-    "C19": {"harnesses": _FRAME_PATH + ["ctor_mapping", "ctor_enum", "ctor_session", "tab_create"],
-            "harnesses_quick": ["parse_frame"] + _H1 + _HANDLERS + ["ctor_mapping", "ctor_enum", "ctor_session", "tab_create"]},
+    "C19": {"harnesses": _FRAME_PATH + ["ctor_mapping", "ctor_enum", "ctor_session", "tab_create", "state_for_iface", "state_clear"],
+            "harnesses_quick": ["parse_frame"] + _H1 + _HANDLERS + ["ctor_mapping", "ctor_enum", "ctor_session", "tab_create", "state_for_iface", "state_clear"]},
     "C20": {"harnesses": [], "extra_steps": [closure.core_closure], "level": "other",
             "explanation": "closure condition of the modular proof: the linked core's undefined functions are exactly port-API functions (goto level and, for every compiler x optimisation x hosted/freestanding setting of the property, object level); the repository's own lint rule; no system header beyond the freestanding set",
             "technique": "closure check of the contract proof: undefined-function set of the linked core (goto-instrument, nm over the stated compiler matrix) compared with the functions declared in lltdPort.h; DFCC additionally fails any call to a function with neither body nor contract"},
-    "C04": {"harnesses": ["tlv_writers", "linux_getters"] + _HELLO_ALL},
+    "C04": {"harnesses": ["tlv_writers", "tlv_writers_be", "wire_headers_be", "linux_getters"] + _HELLO_ALL},
     "C03": {"harnesses": _HELLO_ALL + ["wire_headers", "parse_frame"]},
     "C05": {"harnesses": ["parse_frame"]},
     "C08": {"harnesses": ["send_ltr", "parse_qlt", "c08_reassembly"]},
-    "C07": {"harnesses": ["parse_probe", "parse_query", "parse_query_mtu60", "parse_query_mtu72", "parse_query_mtu80", "parse_query_mtu93"]},
+    "C07": {"harnesses": ["parse_probe", "parse_query", "parse_query_mtu60", "parse_query_mtu72", "parse_query_mtu80", "parse_query_mtu93", "parse_query_symmtu"]},
     "C06": {"harnesses": ["send_probe", "parse_emit", "parse_emit_strict", "parse_emit_1500"]},
     "C10": {"harnesses": ["send_probe", "parse_emit_strict", "parse_probe", "c10_peer"]},
     "C11": {"harnesses": ["derive"]},
@@ -207,8 +226,8 @@ PROPS = {
     "C14": {"harnesses": ["map_step", "tick", "mt_reset_charge", "mt_on_charge", "mt_check_charge", "mt_check_inactive", "mt_reset_inactive"]},
     "C12": {"harnesses": ["tick", "enum_step"]},
     "C15": {"harnesses": ["sess_step"]},
-    "C18": {"harnesses": ["ctor_mapping", "ctor_enum", "ctor_session", "tab_create"] + [h for h in _FRAME_PATH if h != "parse_emit_strict"],
-            "harnesses_quick": ["ctor_mapping", "ctor_enum", "ctor_session", "tab_create", "parse_frame"] + _H1 + [h for h in _HANDLERS if h != "parse_emit_strict"]},
+    "C18": {"harnesses": ["ctor_mapping", "ctor_enum", "ctor_session", "tab_create", "state_for_iface"] + [h for h in _FRAME_PATH if h != "parse_emit_strict"],
+            "harnesses_quick": ["ctor_mapping", "ctor_enum", "ctor_session", "tab_create", "state_for_iface", "parse_frame"] + _H1 + [h for h in _HANDLERS if h != "parse_emit_strict"]},
     "C13": {
         "harnesses": ["band_update", "band_choose", "band_dohello", "band_heard", "band_init", "c13_monotone", "tick"],
         "explanation": "band_* functions enforced against contracts whose postconditions are the closed forms of "
